@@ -12,10 +12,10 @@ git -C /repo worktree remove --force $W >/dev/null 2>&1
 git -C /repo worktree add -q --detach $W HEAD || exit 2
 cd $W || exit 2
 git apply $S/patch.diff || { echo "$ID patch does not apply"; exit 2; }
-suite=$(cargo test --workspace --no-fail-fast --offline 2>&1 | grep -E "^test result" | awk '{p+=$4; f+=$6} END {print p" passed "f" failed"}')
+suite=$(cargo test --workspace --no-fail-fast --offline 2>&1 | grep -a -E "^test result" | awk '{p+=$4; f+=$6} END {print p" passed "f" failed"}')
 cp $S/demo.rs $DEST
-with=$(cargo test --workspace --offline --test $TNAME 2>&1 | grep -E "^test result" | tail -1)
+with=$(cargo test --workspace --offline --test $TNAME 2>&1 | grep -a -E "^test result" | tail -1)
 git apply -R $S/patch.diff
-without=$(cargo test --workspace --offline --test $TNAME 2>&1 | grep -E "^test result" | tail -1)
+without=$(cargo test --workspace --offline --test $TNAME 2>&1 | grep -a -E "^test result" | tail -1)
 cd /; git -C /repo worktree remove --force $W
 echo "$ID | suite with change: $suite | demo with change: $with | demo without: $without"
